@@ -185,8 +185,11 @@ func (ex *Exec) invokeCall(st *State, fr *Frame, call *ssa.CallCommon, recv *Val
 		return
 	}
 	if key == ".(error).Error" {
-		// error text is opaque
-		k(st, scalar(ex.fresh("errtext", ex.strSort())))
+		// error text: an uninterpreted function of the error value (Error() is deterministic: assumption)
+		ex.trusted["error.Error() is a pure function of the error value (errText)"] = true
+		name := "sf_errText_" + sanitizeName(string(SRef))
+		ex.env.d.Func(name, ex.strSort(), SRef)
+		k(st, scalar(ex.env.d.Apply(name, recv.T)))
 		return
 	}
 	cs := ex.P.Specs.Funcs[key]
@@ -1861,6 +1864,7 @@ func (ex *Exec) monitorEnter(st *State, fr *Frame, name string, recv *Val, instr
 	st.locks[name]++
 	if st.locks[name] == 1 && st.locks["*cut*"] == 0 {
 		ex.monitorAssuming(st, fr, m, self, base)
+		st.lockSnaps = append(st.lockSnaps, st.snapshot())
 		return
 	}
 	stru := ex.env.resolve(base).Underlying().(*types.Struct)
@@ -1908,6 +1912,7 @@ func (ex *Exec) monitorEnter(st *State, fr *Frame, name string, recv *Val, instr
 		st.assume(c.EvalBool(m.Inv.Expr))
 	}
 	ex.monitorAssuming(st, fr, m, self, base)
+	st.lockSnaps = append(st.lockSnaps, st.snapshot())
 }
 
 func (ex *Exec) monitorAssuming(st *State, fr *Frame, m *MonitorSpec, self *Term, base types.Type) {
@@ -1923,7 +1928,11 @@ func (ex *Exec) monitorAssuming(st *State, fr *Frame, m *MonitorSpec, self *Term
 // monitorExit: Unlock() - the monitor invariant must hold again.
 func (ex *Exec) monitorExit(st *State, fr *Frame, name string, recv *Val, instr ssa.Instruction) {
 	m, self, base := ex.monitorOf(recv)
-	if m == nil || m.Inv == nil {
+	if m == nil {
+		return
+	}
+	st.unlockSnaps = append(st.unlockSnaps, st.snapshot())
+	if m.Inv == nil {
 		return
 	}
 	c := ex.frameCtx(st, fr)
